@@ -218,7 +218,10 @@ def check_case(res, c, impl, resp, viol):
         bad = rggen.validity(tab, total, 1e-9 if c['scale'] is None else 1e-6)
         if bad:
             property_ok = False
-            viol('failing-input', f'{name} (call {ci}, {k} sweeps): {bad}', rp, f'{op}:not-normalised')
+            mm = rggen.max_abs_message(c['obj'])
+            div = not (mm < rggen.DIVERGED)
+            viol('failing-input', f'{name} (call {ci}, {k} sweeps): {bad}; largest |message| on the object {mm:.3e}', rp,
+                 f'{op}:not-normalised' + (':diverged-messages' if div else ''))
             continue
         if c['scale'] is not None:
             res.count('range stream (potentials x %g)' % c['scale'])
@@ -230,7 +233,10 @@ def check_case(res, c, impl, resp, viol):
             res.count('gbp exactness checked (RIP, >=100 sweeps, potentials on %s)' % c['support'])
             if e > 1e-6 * total:
                 property_ok = False
-                sub = any(any(v != 1 for v in vals) for cl_, _, vals in pots if tuple(cl_) not in set(rggen.init_cliques(c['cl'], False)))
+                maximal = set(rggen.init_cliques(c['cl'], False))
+                sub = any(any(v != 1 for v in vals) for cl_, _, vals in pots if tuple(cl_) not in maximal)
+                # (the recorded finding is keyed by this property of the input; the numerical behaviour on such inputs is pinned down separately by
+                #  the comparison with the Lean model, which transcribes the same treatment of sub-region potentials)
                 key = 'gbp:same-set-regions' if sameset else ('gbp:subregion-potential' if sub else 'gbp:rip-inexact')
                 viol('failing-input',
                      f'{name}: clique set {c["cl"]} has the running-intersection property, {k} sweeps, but table {list(where[0])} cell {where[1]} is '
